@@ -144,6 +144,22 @@ claim(
     "DESIGN.md §2 C03",
 )
 
+claim(
+    "C09",
+    "typestate abstract interpretation (buffer conservation) of the scanner on all paths + structural line "
+    "accounting of the parser",
+    "Proves, from the shape of the code on every path, the invariant concat(scanned) + ''.join(stack) == "
+    "source[:i] for cst_scanner/cst_scan (push-all, no loss, no duplication, final flush, output purity; "
+    "helper summary derived from add_and_clear; loop-head fixpoint; derived all-or-nothing summary of "
+    "cst_scan), and that node texts are exactly the scanner's chunks with line ranges that start at 1 and "
+    "advance by the chunk's newline count, for every scanned chunk in order. Together: losslessness and "
+    "tiling for every input string, which the scanner never inspects to compute output text.",
+    "Assumes Python list/str semantics (appending characters and joining reproduces text) and that the "
+    "strip()/balanced_parentheses predicates are pure (they only choose branches; output purity is checked). "
+    "A restructured scanner yields exit 2.",
+    "DESIGN.md §2 C09",
+)
+
 
 def main():
     """write MANIFEST.json"""
